@@ -44,19 +44,21 @@ Theorem C01b_restr_scatter_add_adjoint : forall (R : CRing) iava (x y : list R),
   dotu R (restr_fwd R iava x) y = dotu R x (scatter_add R (length x) iava y).
 Proof. exact restr_scatter_add_adjoint. Qed.
 Print Assumptions C01b_restr_scatter_add_adjoint.
-(* the code assigns (put_along_axis): adjoint only without repeated indices.
-   Missing for the full statement: repeated indices (refuted below). *)
-Theorem C01b_restr_adjoint_partial : forall (S : StarRing) iava (x y : list S), NoDup iava -> length y = length iava ->
+(* the coded pair (np.take / np.add.at) is adjoint for EVERY index list *)
+Theorem C01b_restr_adjoint : forall (S : StarRing) iava (x y : list S), length y = length iava ->
   dot S (restr_fwd S iava x) y = dot S x (restr_adj S (length x) iava y).
 Proof. exact restr_adjoint_c. Qed.
-Print Assumptions C01b_restr_adjoint_partial.
-Example C01b_restr_adjoint_partial_nonvacuous : NoDup [2; 0; 3] /\
-  dotu QcR (restr_fwd QcR [2; 0; 3] (ql [1; 2; 3; 4]%Z)) (ql [5; 6; 7]%Z) = qz (5 * 3 + 6 * 1 + 7 * 4).
-Proof. split; [repeat constructor; simpl; intuition discriminate | vm_compute; reflexivity]. Qed.
-Theorem C01b_restr_adjoint_refuted : exists iava (x y : list QcR), length y = length iava /\
-  dotu QcR (restr_fwd QcR iava x) y <> dotu QcR x (restr_adj QcR (length x) iava y).
+Print Assumptions C01b_restr_adjoint.
+Example C01b_restr_adjoint_nonvacuous :
+  dotu QcR (restr_fwd QcR [1; 1; 3] (ql [1; 2; 3; 4; 5]%Z)) (ql [5; 6; 7]%Z) = qz (5 * 2 + 6 * 2 + 7 * 4) /\
+  restr_adj QcR 5 [1; 1; 3] (ql [5; 6; 7]%Z) = ql [0; 11; 0; 7; 0]%Z.
+Proof. split; vm_compute; reflexivity. Qed.
+(* Legacy (before fix 1a499ab the adjoint assigned with put_along_axis): that
+   model is NOT the adjoint when an index is repeated *)
+Theorem C01b_restr_legacy_refuted : exists iava (x y : list QcR), length y = length iava /\
+  dotu QcR (restr_fwd QcR iava x) y <> dotu QcR x (restr_adj_legacy QcR (length x) iava y).
 Proof. exists [1; 1; 3], (ql [1; 1; 1; 1; 1]%Z), (ql [1; 1; 1]%Z). split; [reflexivity | vm_compute; discriminate]. Qed.
-Print Assumptions C01b_restr_adjoint_refuted.
+Print Assumptions C01b_restr_legacy_refuted.
 Theorem C02b_restr_linear : forall (R : CRing) iava, Linear R (restr_fwd R iava).
 Proof. exact restr_linear. Qed.
 Print Assumptions C02b_restr_linear.
@@ -225,21 +227,20 @@ Theorem C07b_interp_meets_spec : forall (R : CRing) ls (ws x : list R) i, length
   nth i (interp_fwd R ls ws x) (r0 R) = interp_spec R ls ws i x.
 Proof. exact interp_meets_spec. Qed.
 Print Assumptions C07b_interp_meets_spec.
-Theorem C01b_interp_accumulating_adjoint : forall (R : CRing) ls (ws x y : list R), length ws = length ls -> length y = length ls ->
-  dotu R (interp_fwd R ls ws x) y = dotu R x (interp_adj_add R (length x) ls ws y).
-Proof. exact interp_adjoint. Qed.
-Print Assumptions C01b_interp_accumulating_adjoint.
-(* the coded adjoint assigns: correct only when no two positions share a cell.
-   Missing for the full statement: two positions with the same floor (refuted below). *)
-Theorem C01b_interp_adjoint_partial : forall (R : CRing) ls (ws x y : list R), NoDup ls -> length ws = length ls -> length y = length ls ->
+(* the coded pair is adjoint for EVERY position list (shared cells included) *)
+Theorem C01b_interp_adjoint : forall (R : CRing) ls (ws x y : list R), length ws = length ls -> length y = length ls ->
   dotu R (interp_fwd R ls ws x) y = dotu R x (interp_adj R (length x) ls ws y).
-Proof. exact interp_adjoint_code_partial. Qed.
-Print Assumptions C01b_interp_adjoint_partial.
-Theorem C01b_interp_adjoint_refuted : exists ls (ws x y : list QcR), length ws = length ls /\ length y = length ls /\
-  dotu QcR (interp_fwd QcR ls ws x) y <> dotu QcR x (interp_adj QcR (length x) ls ws y).
+Proof. exact interp_adjoint. Qed.
+Print Assumptions C01b_interp_adjoint.
+Example C01b_interp_adjoint_nonvacuous :
+  interp_adj QcR 5 [0; 0; 2] [q 1 4; q 1 2; z0] (ql [4; 4; 1]%Z) = ql [5; 3; 1; 0; 0]%Z.
+Proof. vm_compute; reflexivity. Qed.
+(* Legacy (assigning Restriction adjoints): not the adjoint when two positions share a cell *)
+Theorem C01b_interp_legacy_refuted : exists ls (ws x y : list QcR), length ws = length ls /\ length y = length ls /\
+  dotu QcR (interp_fwd QcR ls ws x) y <> dotu QcR x (interp_adj_legacy QcR (length x) ls ws y).
 Proof. exists [0; 0; 2], [q 1 4; q 1 2; z0], (ql [1; 1; 1; 1; 1]%Z), (ql [1; 1; 1]%Z).
   split; [reflexivity | split; [reflexivity | vm_compute; discriminate]]. Qed.
-Print Assumptions C01b_interp_adjoint_refuted.
+Print Assumptions C01b_interp_legacy_refuted.
 Theorem C02b_interp_linear : forall (R : CRing) ls (ws : list R), length ws = length ls -> Linear R (interp_fwd R ls ws).
 Proof. exact interp_linear. Qed.
 Print Assumptions C02b_interp_linear.
